@@ -152,6 +152,40 @@ func init() {
 		}
 		return TupleV{v, IfaceV{}}
 	})
+	// x/unsafe.CastSlice[A, B]: reinterpretation of a slice of fixed-size integers as another (amd64: little
+	// endian). Modelled as a COPY: reads see the right values; a write through the result would not reach the
+	// source (the callers in telem only read, or own the source exclusively).
+	reg("github.com/synnaxlabs/x/unsafe.CastSlice", func(c *Ctx, fn *ssa.Function, a []Value) Value {
+		ta, tb := fn.TypeArgs()[0], fn.TypeArgs()[1]
+		na, _, okA := isInt(ta)
+		nb, _, okB := isInt(tb)
+		if !okA || !okB || na%8 != 0 || nb%8 != 0 {
+			c.unsupported("CastSlice between " + ta.String() + " and " + tb.String())
+		}
+		in := a[0].(SliceV)
+		if in.len == 0 {
+			return SliceV{}
+		}
+		var bytes []*Term
+		for _, e := range c.sliceElems(in) {
+			t := e.(*Term)
+			for i := 0; i < na/8; i++ {
+				bytes = append(bytes, c.tb.Extract(t, 8*i+7, 8*i))
+			}
+		}
+		if (len(bytes)*8)%nb != 0 {
+			c.goPanic("unsafe.CastSlice: incompatible element size", nil)
+		}
+		out := make([]Value, 0, len(bytes)*8/nb)
+		for i := 0; i+nb/8 <= len(bytes); i += nb / 8 {
+			v := bytes[i]
+			for j := 1; j < nb/8; j++ {
+				v = c.tb.Concat(bytes[i+j], v)
+			}
+			out = append(out, v)
+		}
+		return c.makeSliceFrom(tb, out)
+	})
 	// encoding/binary.Write for integers (named or not) and byte slices: the reflect-based slow path is summarised
 	reg("encoding/binary.Write", func(c *Ctx, fn *ssa.Function, a []Value) Value {
 		w, order, data := a[0].(IfaceV), a[1].(IfaceV), a[2].(IfaceV)
